@@ -516,11 +516,34 @@ func (c *Ctx) FPFromSBV(a *Term) *Term {
 	if a.IsConst() {
 		return c.FPConst(float64(sext(a.Val, a.Sort.W)))
 	}
+	if a.Op == OIte {
+		return c.Ite(a.Args[0], c.FPFromSBV(a.Args[1]), c.FPFromSBV(a.Args[2]))
+	}
+	if a.Op == OSext {
+		return c.FPFromSBV(a.Args[0]) // the value of a sign-extended integer is the value of the integer
+	}
+	if a.Op == OZext && a.Sort.W > a.Args[0].Sort.W {
+		return c.FPFromUBV(a.Args[0])
+	}
+	if a.Op == OFToSBV && a.Args[0].Sort.W == 64 {
+		// float64 -> intN -> float64 is truncation wherever the first conversion is specified (every such term is built
+		// under an in-range guard, see convert); adding +0 turns the -0 of a truncated (-1,0) into the +0 an integer gives
+		return c.FPBin(OFAdd, c.FPUn(OFTrunc, a.Args[0]), c.FPConst(0))
+	}
 	return c.mk(&Term{Op: OFFromSBV, Sort: FP64, Args: []*Term{a}})
 }
 func (c *Ctx) FPFromUBV(a *Term) *Term {
 	if a.IsConst() {
 		return c.FPConst(float64(a.Val))
+	}
+	if a.Op == OIte {
+		return c.Ite(a.Args[0], c.FPFromUBV(a.Args[1]), c.FPFromUBV(a.Args[2]))
+	}
+	if a.Op == OZext {
+		return c.FPFromUBV(a.Args[0])
+	}
+	if a.Op == OFToUBV && a.Args[0].Sort.W == 64 {
+		return c.FPBin(OFAdd, c.FPUn(OFTrunc, a.Args[0]), c.FPConst(0))
 	}
 	return c.mk(&Term{Op: OFFromUBV, Sort: FP64, Args: []*Term{a}})
 }
